@@ -296,13 +296,13 @@ class SR:
             return SR(z3.RealVal(0), self.nan)
         b = rterm(o)
         engine().note_division(b)
-        return SR(self.t / b, _or_nan(self.nan, nanflag(o)))
+        return SR(_div(self.t, b), _or_nan(self.nan, nanflag(o)))
 
     def __rtruediv__(self, o):
         if isinstance(o, np.ndarray) and o.ndim > 0:
             return NotImplemented
         engine().note_division(self.t)
-        return SR(rterm(o) / self.t, _or_nan(self.nan, nanflag(o)))
+        return SR(_div(rterm(o), self.t), _or_nan(self.nan, nanflag(o)))
 
     def __bool__(self):
         # Python truthiness of a float: x != 0 (NaN is truthy)
@@ -370,6 +370,22 @@ class SR:
         return f"SR({self.t})" if self.nan is None else f"SR({self.t}, nan={self.nan})"
 
 
+def _div(a, b):
+    """a / b; in 'flatten' mode a quotient by a non-constant becomes a fresh q with q*b == a (b != 0 is assumed by
+    note_division): nlsat decides polynomial systems without division far better than terms with division"""
+    e = engine()
+    if not e.flatten_div or z3.is_rational_value(b) or z3.is_rational_value(z3.simplify(b)):
+        return a / b
+    key = (a.get_id(), b.get_id())
+    hit = e._divs.get(key)
+    if hit is not None and hit[0].eq(a) and hit[1].eq(b):
+        return hit[2]
+    q = z3.Real(f"quot!{len(e._divs)}")
+    e._divs[key] = (a, b, q)
+    e.axiom(q * b == a)
+    return q
+
+
 def lift(x) -> SR:
     return x if isinstance(x, SR) else SR(rterm(x), nanflag(x))
 
@@ -422,6 +438,20 @@ _MATH1 = {
 }
 
 
+def _purified(e, name, args):
+    """transcendental kernels as fresh reals with functional consistency only (same argument terms -> same value):
+    for identities that do not depend on what the kernel computes; keeps the query polynomial"""
+    key = (name,) + tuple(a.get_id() for a in args)
+    hit = e.purified.get(key)
+    if hit is None:
+        v = z3.Real(f"{name}!{len(e.purified)}")
+        hit = (args, v)
+        e.purified[key] = hit
+        e.purified_by_var[v.get_id()] = (name, args, v)
+        e.stats["kernels"].add(name + " (purified)")
+    return hit[1]
+
+
 def kfun(name, x):
     """exp/log/log10/sqrt/cos/sin of a scalar (symbolic or not)."""
     if not isinstance(x, (SR, SB)):
@@ -430,6 +460,8 @@ def kfun(name, x):
         return getattr(np, name)(x)
     x = lift(x)
     e = engine()
+    if e.purify:
+        return SR(_purified(e, name, (x.t,)), x.nan)
     f = uf(name, 1)
     t = x.t
     # smart constructors for inverse pairs
@@ -482,6 +514,8 @@ def spow(a, b):
             return kfun("sqrt", a)
     a, b = lift(a), lift(b)
     e = engine()
+    if e.purify:
+        return SR(_purified(e, "pow", (a.t, b.t)), _or_nan(a.nan, b.nan))
     v = uf("pow", 2)(a.t, b.t)
     e.axiom(z3.Implies(a.t > 0, v > 0))
     # pow(10, log10 y) = y is given where log10 is created
@@ -953,6 +987,66 @@ def abstract(t):
 
 
 # --------------------------------------------------------------------------------------------
+# rational-function normal form: t = num/den with polynomial num, den (denominators are non-zero by the
+# division assumptions already on the path).  "t == 0" then is the polynomial identity num == 0, which z3's
+# sum-of-monomials simplifier decides; division inside nlsat queries is what makes them time out.
+
+
+def ratfun(t, cache=None):
+    cache = {} if cache is None else cache
+    k = t.get_id()
+    hit = cache.get(k)
+    if hit is not None and hit[0].eq(t):
+        return hit[1]
+    one = z3.RealVal(1)
+    if not z3.is_app(t) or t.num_args() == 0:
+        r = (t, one)
+    else:
+        kind = t.decl().kind()
+        if kind in (z3.Z3_OP_ADD, z3.Z3_OP_SUB):
+            parts = [ratfun(c, cache) for c in t.children()]
+            dens = []
+            for (_, d) in parts:
+                if not any(d.eq(e) for e in dens) and not z3.is_rational_value(d):
+                    dens.append(d)
+            den = one
+            for d in dens:
+                den = den * d
+            terms = []
+            for i, (nn, d) in enumerate(parts):
+                f = nn
+                for e in dens:
+                    if not e.eq(d):
+                        f = f * e
+                if z3.is_rational_value(d) and not (d.numerator_as_long() == 1 and d.denominator_as_long() == 1):
+                    f = f / d
+                terms.append(f if (kind == z3.Z3_OP_ADD or i == 0) else -f)
+            r = (z3.Sum(*terms) if len(terms) > 1 else terms[0], den)
+        elif kind == z3.Z3_OP_UMINUS:
+            nn, d = ratfun(t.arg(0), cache)
+            r = (-nn, d)
+        elif kind == z3.Z3_OP_MUL:
+            parts = [ratfun(c, cache) for c in t.children()]
+            nn, d = parts[0]
+            for (n2, d2) in parts[1:]:
+                nn, d = nn * n2, (d if z3.is_rational_value(d2) and d2.numerator_as_long() == d2.denominator_as_long() == 1 else d * d2)
+            r = (nn, d)
+        elif kind == z3.Z3_OP_DIV:
+            n1, d1 = ratfun(t.arg(0), cache)
+            n2, d2 = ratfun(t.arg(1), cache)
+            r = (n1 * d2, d1 * n2)
+        else:
+            r = (t, one)   # uninterpreted application, ite, ...: an atom
+    cache[k] = (t, r)
+    return r
+
+
+def poly_is_zero(p):
+    z = z3.simplify(p, som=True)
+    return z3.is_rational_value(z) and z.numerator_as_long() == 0
+
+
+# --------------------------------------------------------------------------------------------
 # engine
 
 
@@ -978,6 +1072,14 @@ class Engine:
         self.pos = 0
         self.in_path = False
         self.assume_div_nonzero = True
+        self.portfolio = True
+        self.ext_timeout_s = 120
+        self._quick = False
+        self.flatten_div = False
+        self._divs = {}
+        self.purify = False
+        self.purified = {}
+        self.purified_by_var = {}
         self.stats = {
             "paths": 0, "decisions": 0, "forks": 0, "queries": {"sat": 0, "unsat": 0, "unknown": 0},
             "solver_s": 0.0, "kernels": set(), "axioms": 0, "domain_assumptions": set(),
@@ -998,6 +1100,11 @@ class Engine:
         self._axioms_seen = set()
         self._axioms_alive = []
         self._fresh = {}
+        self.purify = False
+        self.purified = {}
+        self.purified_by_var = {}
+        self.flatten_div = False
+        self._divs = {}
         self.solver.push()
         self.asolver.push()
         self.in_path = True
@@ -1025,14 +1132,55 @@ class Engine:
         r = self.solver.check(*assumptions)
         self.stats["solver_s"] += time.time() - t0
         s = str(r)
+        if s == "unknown" and self.portfolio and not self._quick:
+            s2 = self._external(assumptions)
+            if s2 == "unsat":
+                s = "unsat"
+                self.stats["queries"]["unsat_external_z3_4.8.12"] = self.stats["queries"].get("unsat_external_z3_4.8.12", 0) + 1
+                return s
         self.stats["queries"][s] = self.stats["queries"].get(s, 0) + 1
         return s
 
+    def _external(self, assumptions):
+        """second opinion of /usr/bin/z3 (4.8.12) on the same query; only a clean 'unsat' is used"""
+        import subprocess, tempfile, os, shutil
+        z = shutil.which("z3")
+        if z is None:
+            return "unknown"
+        sv = z3.Solver()
+        sv.add(self.solver.assertions())
+        for a in assumptions:
+            sv.add(a)
+        txt = "(set-logic ALL)\n" + sv.to_smt2()
+        fd, path = tempfile.mkstemp(suffix=".smt2", dir="/var/tmp")
+        t0 = time.time()
+        try:
+            with os.fdopen(fd, "w") as f:
+                f.write(txt)
+            out = subprocess.run([z, f"-T:{self.ext_timeout_s}", path], capture_output=True, text=True,
+                                 timeout=self.ext_timeout_s + 20).stdout
+        except Exception:
+            out = ""
+        finally:
+            self.stats["solver_s"] += time.time() - t0
+            try:
+                os.unlink(path)
+            except OSError:
+                pass
+        lines = [l.strip() for l in out.splitlines() if l.strip()]
+        if any(l.startswith("(error") for l in lines):
+            return "unknown"
+        if lines and lines[0] == "unsat":
+            return "unsat"
+        return "unknown"
+
     def _check_quick(self, *assumptions):
         self.solver.set("timeout", self.branch_timeout_ms)
+        self._quick = True
         try:
             return self._check(*assumptions)
         finally:
+            self._quick = False
             self.solver.set("timeout", self.timeout_ms)
 
     def decide(self, cond):
@@ -1133,9 +1281,11 @@ class Engine:
         if self._acheck() == "unsat":
             return "unsat"
         self.solver.set("timeout", 1500)
+        self._quick = True
         try:
             return self._check()
         finally:
+            self._quick = False
             self.solver.set("timeout", self.timeout_ms)
 
     def model(self):
